@@ -14,21 +14,8 @@ def bound_of(atom):
     return {k.items[0].value: k.items[1] for k in atom[2]}
 
 
-def run(chk, repo, tier):
-    from .common import no_hidden_state
-    no_hidden_state(chk, repo, 'C12')
-    chk.clause('C12-o', 'fit / compose / remove leave their arguments (opd, mask, rho, theta, coefficients) untouched', 5)
-    from .common import operands_untouched
-    operands_untouched(chk, repo, 'C12-o', ['zernike.zernike', 'zernike.zernike_compose', 'zernike.zernike_basis', 'zernike.zernike_fit', 'zernike.zernike_remove', 'zernike.zernike_coordinates', 'zernike.R'], allow=[])
-    chk.clause('C12-a', 'every internal call in zernike.py binds normalize/rho/theta/modes/mask to the like-named parameter', 8)
-    chk.clause('C12-b', 'the removed component is synthesised from the fitted mode set (depends on `modes` beyond the coefficients)', 1)
-    chk.clause('C12-c', 'analysis and synthesis in zernike_remove use the same normalisation and coordinates', 2)
-    chk.clause('C12-d', 'compose maps coefficient k to Noll index k+1; basis row i is mode modes[i]; fit applies the '
-                        'pseudo-inverse of the vectorised basis of the same modes', 3)
-    chk.clause('C12-e', 'nothing is lost between synthesis and analysis: full-rank pseudo-inverse cut-off, float basis array', 2)
-    chk.not_decided += ['exact recovery of coefficients and idempotence (numerical)']
-
-    # ---------------------------------------------------------------- C12-a
+def binding_rule(chk, repo, clause='C12-a'):
+    """every internal call in zernike.py binds normalize/rho/theta/modes/mask to the like-named parameter, and forwards them"""
     for name in ZFUNCS:
         if not repo.has_func(f'zernike.{name}'):
             continue
@@ -38,9 +25,30 @@ def run(chk, repo, tier):
             if s.callee.module.name != 'zernike':
                 continue
             mm = bind.b3_mismatches(s, names=NAMES)
-            chk.ob('C12-a', 'B3-binding', caller.key, _ord(s, ords), not mm,
+            chk.ob(clause, 'B3-binding', caller.key, _ord(s, ords), not mm,
                    '; '.join(f'argument `{a}` is bound to parameter `{p}`' for p, a in mm) or 'like-named binding',
                    s.loc())
+
+
+
+def run(chk, repo, tier):
+    from .common import no_hidden_state
+    no_hidden_state(chk, repo, 'C12')
+    chk.clause('C12-o', 'fit / compose / remove leave their arguments (opd, mask, rho, theta, coefficients) untouched', 5)
+    from .common import operands_untouched
+    operands_untouched(chk, repo, 'C12-o', ['zernike.zernike', 'zernike.zernike_compose', 'zernike.zernike_basis', 'zernike.zernike_fit', 'zernike.zernike_remove', 'zernike.zernike_coordinates', 'zernike.R'], allow=[])
+    chk.clause('C12-a', 'every internal call in zernike.py binds normalize/rho/theta/modes/mask to the like-named parameter', 8)
+    chk.clause('C12-b', 'the removed component is synthesised from the fitted mode set (depends on `modes` beyond the coefficients)', 1)
+    chk.clause('C12-c', 'analysis and synthesis in zernike_remove use the same normalisation and coordinates', 2)
+    from .c11 import bool_coercion_rule
+    bool_coercion_rule(chk, repo, 'C12-c')
+    chk.clause('C12-d', 'compose maps coefficient k to Noll index k+1; basis row i is mode modes[i]; fit applies the '
+                        'pseudo-inverse of the vectorised basis of the same modes', 3)
+    chk.clause('C12-e', 'nothing is lost between synthesis and analysis: full-rank pseudo-inverse cut-off, float basis array', 2)
+    chk.not_decided += ['exact recovery of coefficients and idempotence (numerical)']
+
+    # ---------------------------------------------------------------- C12-a
+    binding_rule(chk, repo)
 
     # ------------------------------------------------------------ C12-b / c
     frem = repo.func('zernike.zernike_remove')
